@@ -15,6 +15,7 @@ from .c04_e2e import over_clauses
 HEADER = ("From Coq Require Import List ZArith NArith.\nFrom PV Require Import Lib.ListX Model.Rel Model.Frame.\n"
           "Import ListNotations.\nLocal Open Scope Z_scope.\n")
 B = [None, -2, -1, 0, 1, 2]
+RANGE_KEYS_MSG = "window: a `range` with an offset needs exactly one sort key"                 # pinned by gen_window.extract_gen_expr
 EMPTY_RANGE_MSG = "window: `%s` is an empty range (its start is after its end)"     # pinned in the source by gen_window.extract_transforms
 
 
@@ -144,7 +145,8 @@ def run(ck, supports_table=None):
     exprs = []
     for c in cases:
         r = "(WFrame no_window)" if c["args"] is None else "(frame_of %s)" % c["args"]
-        exprs.append("(wresult_data %s, show_frame (emit_frame %s %s (wresult_frame %s)))" % (r, "true" if c["supports"] else "false", "true" if c["sorted"] else "false", r))
+        nkeys = c.get("nsort", 1) if c["sorted"] else 0
+        exprs.append("(wresult_data %s, match emit_window %s %d%%nat (wresult_frame %s) with Some cl => (0%%N, show_frame cl) | None => (1%%N, []) end)" % (r, "true" if c["supports"] else "false", nkeys, r))
     try:
         mv = coq_eval(HEADER, exprs)
     except RuntimeError:
@@ -154,7 +156,7 @@ def run(ck, supports_table=None):
     for c, m, a, q in zip(cases, mv, comp, rqs):
         ck.count("frame-corr", c["src"])
         ck.stat("frame-corr", "fn:" + c["fn"])
-        code, (kind, ms, me), mtext = m
+        code, (kind, ms, me), (wrej, mtext) = m
         mtext = "".join(chr(x) for x in mtext)
         if code != 0:
             # the model says: rejected.  Both entry points must report exactly that error, and nothing else
@@ -187,6 +189,15 @@ def run(ck, supports_table=None):
                 {"src": c["src"], "impl_rq_window": got_rq, "model": list(want_rq), "rq": q if "ok" not in q else None}, lambda _c: None)
         elif c["atxt"] in ("rows:0..(-1)", "range:0..(-1)"):
             ck.stat("frame-corr", "explicit-default-accepted")
+        # --- translate_windowed rejects (a RANGE offset over no sort key or several): exactly that error, from compile only
+        if wrej:
+            ck.stat("frame-corr", "rejected:range-offset")
+            reasons = [e.get("reason") for e in a.get("err", [])] if "err" in a else None
+            if reasons != [RANGE_KEYS_MSG]:
+                ck.stat("frame-corr", "disagreement:rejection")
+                ck.disagreement("the model of translate_windowed rejects the frame (%s), the implementation answers %s: %s" % (RANGE_KEYS_MSG, json.dumps(a)[:200], c["src"]),
+                                {"src": c["src"], "impl": a, "model": RANGE_KEYS_MSG}, lambda _c: None)
+            continue
         # --- emitted OVER text
         got = None
         if "ok" in a:
